@@ -15,6 +15,7 @@ package main
 // own successful writes and can be used in postconditions.
 
 import (
+	"math/big"
 	"fmt"
 	"go/types"
 	"strings"
@@ -27,6 +28,7 @@ type tmInfo struct {
 	invs       []Clause
 	guarantees map[string][]Clause
 	observe    map[string]string
+	observeAll map[string]string // `observe F into g all`: g[idx] &= every value observed (bits set in ALL observations)
 }
 
 func (e *Exec) tm() *tmInfo {
@@ -63,6 +65,12 @@ func (e *Exec) tm() *tmInfo {
 		f := strings.Fields(cl.Expr)
 		if len(f) == 3 && f[1] == "into" {
 			ti.observe[f[0]] = f[2]
+		}
+		if len(f) == 4 && f[1] == "into" && f[3] == "all" {
+			if ti.observeAll == nil {
+				ti.observeAll = map[string]string{}
+			}
+			ti.observeAll[f[0]] = f[2]
 		}
 	}
 	e.tmCache = ti
@@ -200,6 +208,11 @@ func tmAtomicHook(e *Exec, st *State, name string, cc *ssa.CallCommon, args []Va
 			seen := e.ghostGet(st, g, at, e.sc.zero(at))
 			e.ghostSet(st, g, at, fmt.Sprintf("(store %s %s (bvor (select %s %s) %s))", seen.S, idx, seen.S, idx, cur.S))
 		}
+		if g, ok := ti.observeAll[fam]; ok && idx != "" && e.mode == ModeBV {
+			at := types.NewArray(cur.T, 1)
+			seen := e.ghostGet(st, g, at, e.allOnesArray(cur.T))
+			e.ghostSet(st, g, at, fmt.Sprintf("(store %s %s (bvand (select %s %s) %s))", seen.S, idx, seen.S, idx, cur.S))
+		}
 		e.setResult(st, dst, cur)
 	case strings.Contains(name, ".CompareAndSwap"):
 		ok := e.sc.define("casok", "Bool", eq(cur.S, args[1].S))
@@ -227,6 +240,11 @@ func tmAtomicHook(e *Exec, st *State, name string, cc *ssa.CallCommon, args []Va
 			at := types.NewArray(cur.T, 1)
 			seen := e.ghostGet(st, g, at, e.sc.zero(at))
 			e.ghostSet(st, g, at, ite(ok, fmt.Sprintf("(store %s %s (bvor (select %s %s) %s))", seen.S, idx, seen.S, idx, cur.S), seen.S))
+		}
+		if g, okk := ti.observeAll[fam]; okk && idx != "" && e.mode == ModeBV {
+			at := types.NewArray(cur.T, 1)
+			seen := e.ghostGet(st, g, at, e.allOnesArray(cur.T))
+			e.ghostSet(st, g, at, ite(ok, fmt.Sprintf("(store %s %s (bvand (select %s %s) %s))", seen.S, idx, seen.S, idx, cur.S), seen.S))
 		}
 		e.tmAfterWrite(st, ti, fam, idx, cur, Val{T: cur.T, S: args[2].S}, ok, ins)
 		e.setResult(st, dst, Val{T: tBool, S: ok})
@@ -439,8 +457,18 @@ func (e *Exec) tmInitGhosts(st *State) {
 				at := types.NewArray(et, 1)
 				e.ghostGet(st, g, at, e.sc.zero(at))
 			}
+			if g, ok := ti.observeAll[fam]; ok && e.mode == ModeBV {
+				e.ghostGet(st, g, types.NewArray(et, 1), e.allOnesArray(et))
+			}
 		}
 	}
+}
+
+// allOnesArray: the constant array of all-ones words (initial value of an `observe ... all` ghost)
+func (e *Exec) allOnesArray(et types.Type) string {
+	w, _, _ := intWidth(et.Underlying().(*types.Basic))
+	ones := new(big.Int).Sub(new(big.Int).Lsh(big.NewInt(1), uint(w)), big.NewInt(1))
+	return fmt.Sprintf("((as const (Array %s %s)) %s)", e.sc.idx(), e.sc.sortOf(et), bvLit(ones, w))
 }
 
 func (e *Exec) loopHasAtomics(l *loopInfo) bool {
